@@ -1,0 +1,55 @@
+//go:build verif
+
+package ed25519
+
+import "github.com/cloudflare/pat-go/ed25519/internal/edwards25519"
+
+// Views of the internal edwards25519 scalar and point operations for the verification harness
+// (build tag verif only; nothing here is reachable in a normal build). Scalars are 32-byte
+// little-endian strings, points 32-byte encodings.
+
+func VerifScalarSetBytes(x []byte) []byte { return edwards25519.NewScalar().SetBytes(x).Bytes() }
+
+func VerifScalarSetBytesWithClamping(x []byte) []byte {
+	return edwards25519.NewScalar().SetBytesWithClamping(x).Bytes()
+}
+
+func VerifScalarSetUniformBytes(x []byte) []byte {
+	return edwards25519.NewScalar().SetUniformBytes(x).Bytes()
+}
+
+func VerifScalarSetCanonicalBytes(x []byte) ([]byte, error) {
+	s, err := edwards25519.NewScalar().SetCanonicalBytes(x)
+	if err != nil {
+		return nil, err
+	}
+	return s.Bytes(), nil
+}
+
+func verifScalar(x []byte) *edwards25519.Scalar {
+	s, err := edwards25519.NewScalar().SetCanonicalBytes(x)
+	if err != nil {
+		panic(err)
+	}
+	return s
+}
+
+// VerifScalarMulAdd returns x*y+z mod l for canonical scalars.
+func VerifScalarMulAdd(x, y, z []byte) []byte {
+	return edwards25519.NewScalar().MultiplyAdd(verifScalar(x), verifScalar(y), verifScalar(z)).Bytes()
+}
+
+func VerifScalarModInverse(x []byte) []byte { return verifScalar(x).ModInverse().Bytes() }
+
+// VerifPointScalarMult returns [s]P for a canonical scalar and a point encoding.
+func VerifPointScalarMult(s, p []byte) ([]byte, error) {
+	P, err := (&edwards25519.Point{}).SetBytes(p)
+	if err != nil {
+		return nil, err
+	}
+	return (&edwards25519.Point{}).ScalarMult(verifScalar(s), P).Bytes(), nil
+}
+
+func VerifPointScalarBaseMult(s []byte) []byte {
+	return (&edwards25519.Point{}).ScalarBaseMult(verifScalar(s)).Bytes()
+}
